@@ -193,3 +193,27 @@ Definition listreq_service := mkService [mkMethod true HGet false true false tru
 Lemma service_listrequest_panics :
   service_in_language listreq_service = true /\ verdict_d (compile_service listreq_service) = VPanic.
 Proof. vm_compute. split; reflexivity. Qed.
+
+(* ---- topics, object and oneof shells *)
+Lemma typed_topic_service : site_typed st_topic_service = true. Proof. vm_compute. reflexivity. Qed.
+Lemma typed_object_psm : site_typed st_object_psm = true. Proof. vm_compute. reflexivity. Qed.
+Lemma typed_oneof_msg : site_typed st_oneof_msg = true. Proof. vm_compute. reflexivity. Qed.
+
+Theorem topic_accepted : forall t, verdict_d (compile_topic t) = VOk.
+Proof.
+  intro t. unfold compile_topic.
+  destruct (Nat.ltb 0 (topic_messages t)); destruct (topic_has_metadata t); vm_compute; reflexivity.
+Qed.
+Theorem object_shell_accepted : forall entity, verdict_d (compile_object_shell entity) = VOk.
+Proof. intros [|]; vm_compute; reflexivity. Qed.
+Theorem oneof_shell_accepted : verdict_d compile_oneof_shell = VOk.
+Proof. vm_compute. reflexivity. Qed.
+
+(* every site of the model's call-site table is exercised by one of the model functions: the field
+   sites by build_property / set_j5ext (CmpbFields.v), the declaration sites by the functions above *)
+Definition decl_sites_used : list site :=
+  [st_topic_service; st_object_psm; st_object_msg; st_oneof_msg; st_enum_info; st_enum_value;
+   st_service_opts; st_method_http; st_method_opts; st_method_listreq].
+Lemma decl_sites_are_model_sites :
+  forallb (fun x => existsb (fun y => String.eqb (s_func x) (s_func y) && ext_eqb (s_ext x) (s_ext y)) model_sites) decl_sites_used = true.
+Proof. vm_compute. reflexivity. Qed.
